@@ -1,0 +1,15 @@
+//go:build verif
+
+package messagequeue
+
+// VerifQueuedBlockSizes reports, under the builders lock, the block size of every builder still queued
+// (verification hook, build tag verif).
+func (mq *MessageQueue) VerifQueuedBlockSizes() []uint64 {
+	mq.buildersLk.RLock()
+	defer mq.buildersLk.RUnlock()
+	out := make([]uint64, 0, len(mq.builders))
+	for _, b := range mq.builders {
+		out = append(out, b.BlockSize())
+	}
+	return out
+}
